@@ -67,8 +67,36 @@ class Facts(object):
         self.kill = kill
         self.textfn = textfn or (lambda e: norm.canon(e, self.al))
         self._names = {}
-        self.sin, self.sout = cfgmod.forward(
-            self.g, frozenset(), self._transfer, self._edge, include_exc=include_exc)
+        # a state is a bounded disjunction: a frozenset of alternatives, each a frozenset of facts.  Joins keep the
+        # alternatives apart (up to MAX_ALTS, then they collapse to their intersection), so that after
+        #     if a and b: return ...
+        # a later `if a:` knows b is false: the alternative (F:a) is contradicted by the new fact and dropped.
+        self._sin, self._sout = cfgmod.forward(
+            self.g, frozenset([frozenset()]), self._transfer, self._edge, meet=self._meet, include_exc=include_exc)
+
+    MAX_ALTS = 6
+
+    @staticmethod
+    def _flat(state):
+        if state is None:
+            return None
+        alts = list(state)
+        if not alts:
+            return frozenset()
+        out = set(alts[0])
+        for a in alts[1:]:
+            out &= a
+        return frozenset(out)
+
+    def _norm(self, alts):
+        alts = set(alts)
+        keep = [a for a in alts if not any(b < a for b in alts)]
+        if len(keep) > self.MAX_ALTS:
+            return frozenset([self._flat(keep)])
+        return frozenset(keep)
+
+    def _meet(self, a, b):
+        return self._norm(set(a) | set(b))
 
     def _fact(self, pol, expr):
         pol, expr = positive(pol, expr)
@@ -81,23 +109,58 @@ class Facts(object):
         bound = _bound_names(node)
         if not bound and self.kill is None:
             return state
-        out = []
-        for f in state:
-            if bound and (self._names[f[1]] & bound):
-                continue
-            if self.kill is not None and self.kill(node, f):
-                continue
-            out.append(f)
-        return frozenset(out)
+        # a boolean flag: `add = True` / `found = False` establishes the fact (T/F, "add") -- with the alternatives kept
+        # apart at joins, a later `if add:` then recovers the conditions under which the flag was set
+        flag = None
+        a = node.ast
+        if node.kind == "stmt" and isinstance(a, ast.Assign) and len(a.targets) == 1 and isinstance(a.targets[0], ast.Name) \
+                and isinstance(a.value, ast.Constant) and isinstance(a.value.value, bool):
+            flag = ("T" if a.value.value else "F", a.targets[0].id)
+            self._names.setdefault(flag[1], frozenset([flag[1]]))
+        res = set()
+        for alt in state:
+            out = []
+            for f in alt:
+                if bound and (self._names[f[1]] & bound):
+                    continue
+                if self.kill is not None and self.kill(node, f):
+                    continue
+                out.append(f)
+            if flag is not None:
+                out.append(flag)
+            res.add(frozenset(out))
+        return self._norm(res)
+
+    def alternatives(self, node):
+        """The disjunction of fact sets known on entry to `node` (one of them describes the path actually taken);
+        None if unreachable.  `at(node)` is their intersection."""
+        s = self._sin[node.id]
+        return None if s is None else list(s)
+
+    def node_of(self, astnode):
+        """the CFG node whose expressions contain `astnode`"""
+        for n in self.g.nodes:
+            for frag in cfgmod.node_exprs(n):
+                for x in ast.walk(frag):
+                    if x is astnode:
+                        return n
+        return None
 
     def _edge(self, src, label, dst, state):
         if isinstance(label, tuple):
-            return state | {self._fact(label[0], label[1])}
+            f = self._fact(label[0], label[1])
+            anti = (_FLIP[f[0]], f[1])
+            live = [alt for alt in state if anti not in alt]
+            if live:
+                # alternatives that assumed the opposite outcome of this very test are not the way we got here
+                return self._norm(alt | {f} for alt in live)
+            # every alternative holds a stale opposite fact (the expression changed value): the new outcome wins
+            return self._norm((alt - {anti}) | {f} for alt in state)
         return state
 
     def at(self, node):
         """Facts holding on entry to `node` (None if unreachable)."""
-        return self.sin[node.id]
+        return self._flat(self._sin[node.id])
 
     def per_entry(self, node):
         """One fact set per incoming edge of `node` (facts after the predecessor plus the edge's own branch fact): a node
@@ -107,15 +170,15 @@ class Facts(object):
             for (succ, label) in pred.succs:
                 if succ is not node or label == "exc":
                     continue
-                base = self.sout[pred.id]
+                base = self._sout[pred.id]
                 if base is None:
                     continue
                 st = self._edge(pred, label, node, base)
-                out.append(st)
+                out.extend(st)
         return out
 
     def holds(self, node, pol, text):
-        s = self.sin[node.id]
+        s = self.at(node)
         return s is not None and (pol, text) in s
 
 
